@@ -97,7 +97,7 @@ struct G<'a> {
     names: Vec<String>,
     consuming: Vec<bool>,
     cur: usize,
-    cur_ty: RuleType,
+    tys: Vec<RuleType>,
     tag_n: usize,
     /// index of a rule whose body is a choice of strings (skipper inlining), if any
     needle_rule: Option<usize>,
@@ -144,9 +144,10 @@ pub fn gen_grammar(rng: &mut Rng, cfg: &GenCfg) -> Vec<Rule> {
     let needle_rule = if n >= 2 && rng.chance(1, 3) { Some(n - 1) } else { None };
     let mut rules = vec![];
     let total = names.len();
+    let mut tys: Vec<RuleType> = vec![];
     for i in 0..total {
         let is_skip = i >= n;
-        let ty = if is_skip {
+        tys.push(if is_skip {
             skip_defs[i - n].1
         } else {
             match rng.weighted(&[40, 15, 20, 12, 13]) {
@@ -156,14 +157,18 @@ pub fn gen_grammar(rng: &mut Rng, cfg: &GenCfg) -> Vec<Rule> {
                 3 => RuleType::CompoundAtomic,
                 _ => RuleType::NonAtomic,
             }
-        };
+        });
+    }
+    for i in 0..total {
+        let is_skip = i >= n;
+        let ty = tys[i];
         let mut g = G {
             rng,
             cfg,
             names: names.clone(),
             consuming: consuming.clone(),
             cur: i,
-            cur_ty: ty,
+            tys: tys.clone(),
             tag_n: 0,
             needle_rule,
             stack_rule: stack_rule.as_ref().map(|r| (r.0.clone(), r.1)),
@@ -269,13 +274,39 @@ impl<'a> G<'a> {
     fn tag(&mut self, e: Expr) -> Expr {
         #[cfg(feature = "grammar-extras")]
         {
-            if self.cfg.extras && self.rng.chance(1, 12) {
+            if self.cfg.extras && self.rng.chance(1, 12) && self.taggable(&e) {
                 self.tag_n += 1;
                 let t = format!("t{}", self.tag_n % 3);
                 return Expr::NodeTag(Box::new(e), t);
             }
         }
         e
+    }
+
+    /// The validator rejects tags that can never show up: on built-in rules and on silent rules
+    /// (looking through postfix/prefix operators and PUSH).
+    #[allow(dead_code)]
+    fn taggable(&self, e: &Expr) -> bool {
+        match e {
+            Expr::Ident(n) => match self.names.iter().position(|x| x == n) {
+                Some(j) => self.tys[j] != RuleType::Silent,
+                None => match &self.stack_rule {
+                    Some((sn, ty)) if sn == n => *ty != RuleType::Silent,
+                    _ => false,
+                },
+            },
+            Expr::Rep(i)
+            | Expr::RepOnce(i)
+            | Expr::RepExact(i, _)
+            | Expr::RepMin(i, _)
+            | Expr::RepMax(i, _)
+            | Expr::RepMinMax(i, _, _)
+            | Expr::Opt(i)
+            | Expr::Push(i)
+            | Expr::PosPred(i)
+            | Expr::NegPred(i) => self.taggable(i),
+            _ => true,
+        }
     }
 
     /// `lm`: no terminal has been consumed yet on this path since the rule began.
@@ -514,7 +545,7 @@ impl<'a> G<'a> {
                 for _ in 0..nn {
                     if self.rng.chance(1, 6) && self.needle_rule.is_some() && self.needle_rule != Some(self.cur) && !(lm && self.needle_rule.unwrap() <= self.cur) {
                         needles.push(Expr::Ident(self.names[self.needle_rule.unwrap()].clone()));
-                    } else if self.rng.chance(1, 8) {
+                    } else if !self.guarded() && self.rng.chance(1, 8) {
                         needles.push(Expr::Str(String::new()));
                     } else {
                         needles.push(Expr::Str(self.lit_nonempty()));
